@@ -159,6 +159,7 @@ func runC17(p *Prog, r *Report) {
 		{"generator.Generate", "converters", "config.Converter"},
 		{"generator.(*fileManager).renderFiles", "files", ""},
 	})
+	packageErrorsFirstRule(p, r, "C17.O9")
 }
 
 func needFunc(p *Prog, r *Report, key string) (*FuncInfo, *ssa.Function) {
@@ -889,6 +890,8 @@ func runC15(p *Prog, r *Report) {
 	c15R5(p, r)
 	c15R6(p, r, "C15.R6")
 	getPackagesRule(p, r, "C15.R7")
+	outputPackageRule(p, r, "C15.R8")
+	armEffectRule(p, r, "C15.R9", "config.parseConverterLine", "output:package", "OutputPackagePath", "OutputPackageName")
 }
 
 // c15R2b: keys of the rendered map are the fileManager keys, which are getOutputDir(conv).
@@ -1228,9 +1231,10 @@ func runC16(p *Prog, r *Report) {
 	c16R1(p, r)
 	c16R2(p, r)
 	c16R3(p, r)
-	c16R4(p, r)
+	c16R4(p, r, "C16.R4")
 	ruleWhoMayWrite(p, r, "C16.R5")
 	noFsReadRule(p, r, "C16.R6")
+	flagsNotRewrittenRule(p, r, "C16.R7")
 }
 
 func c16R1(p *Prog, r *Report) {
@@ -1554,8 +1558,8 @@ func c16R3(p *Prog, r *Report) {
 }
 
 // c16R4: every packages.Load config carries "-tags", tags.
-func c16R4(p *Prog, r *Report) {
-	r.Rule("C16.R4", "every packages.Load call in own code uses a config whose BuildFlags receive exactly \"-tags\", <the unmodified build-tag string> under a `!= \"\"` guard on that same string (both loaders agree), and whose Dir is the configured working directory", 2)
+func c16R4(p *Prog, r *Report, id string) {
+	r.Rule(id, "every packages.Load call in own code uses a config whose BuildFlags receive exactly \"-tags\", <the unmodified build-tag string> under a `!= \"\"` guard on that same string (both loaders agree), and whose Dir is the configured working directory", 2)
 	for _, cs := range p.Calls() {
 		if !isFunc(cs.Callee, "golang.org/x/tools/go/packages", "", "Load") || cs.Encl == nil {
 			continue
